@@ -14,6 +14,7 @@
  */
 #include "ncmpio_header_get.c"
 #include <unistd.h>
+#include <sys/resource.h>
 
 static void hex(FILE *o, const void *p, size_t n) {
     const unsigned char *c = (const unsigned char*)p;
@@ -41,6 +42,7 @@ int main(int argc, char **argv) {
     FILE *in, *out;
     MPI_Init(&argc, &argv);
     MPI_Comm_rank(MPI_COMM_WORLD, &rank);
+    { struct rlimit rl; rl.rlim_cur = rl.rlim_max = (rlim_t)6 << 30; setrlimit(RLIMIT_AS, &rl); } /* a runaway allocation is a result, not a stuck machine */
     MPI_Comm_size(MPI_COMM_WORLD, &nprocs);
     MPI_Comm_set_errhandler(MPI_COMM_WORLD, MPI_ERRORS_RETURN);
     if (argc < 3) { fprintf(stderr, "usage\n"); MPI_Abort(MPI_COMM_WORLD, 2); }
@@ -53,7 +55,7 @@ int main(int argc, char **argv) {
         MPI_File fh;
         NC *ncp;
         if (sscanf(line, "%4095s %d %d", path, &chunk, &safe) != 3) continue;
-        alarm(30);   /* per-request watchdog: a hang is a result (the driver script restarts after it) */
+        alarm(10);   /* per-request watchdog: a hang is a result (the driver script restarts after it) */
         err = MPI_File_open(MPI_COMM_WORLD, path, MPI_MODE_RDONLY, MPI_INFO_NULL, &fh);
         if (err != MPI_SUCCESS) { fprintf(out, "OPENFAIL\n"); continue; }
         ncp = (NC*) NCI_Calloc(1, sizeof(NC));
